@@ -165,7 +165,11 @@ type scriptedWriter struct{ r *ringRun }
 func (s scriptedWriter) Write(p []byte) (int, error) {
 	r := s.r
 	bad := !checkStream(p, r.consumed*unitBytes)
-	r.ev["C"] <- ringEvent{site: "wt.write", m: len(p) / unitBytes, bad: bad || len(p)%unitBytes != 0}
+	m := len(p) / unitBytes
+	if len(p)%unitBytes != 0 {
+		m = 1 << 20 // not a whole number of units: some other chunking than the specification's (ends the schedule)
+	}
+	r.ev["C"] <- ringEvent{site: "wt.write", m: m, bad: bad}
 	c := <-r.ext["C"]
 	if c.op == "quit" || !c.ok {
 		return 0, io.EOF // the peer is gone
@@ -422,7 +426,15 @@ func replayRing(sc *ringSched, stats map[string]int) string {
 				}
 			}
 			if e.site == "wt.write" && e.m != st.m {
-				return fmt.Sprintf("%s: %d units handed to the writer, specification %d", where, e.m, st.m)
+				// how WriteTo cuts the stream into writes is not part of any property (the bytes were checked to be
+				// the next bytes of the stream): the specification's WriteTo peeks one block and joins a wrapped
+				// region, an implementation may hand over less or more. The rest of this schedule assumes the
+				// specification's chunking, so it ends here; nothing is reported.
+				if e.m < 1 {
+					return fmt.Sprintf("%s: the writer was handed %d units", where, e.m)
+				}
+				stats["chunking_differs"]++
+				return ""
 			}
 		}
 		p, c := r.bf.VerifCursors()
